@@ -152,6 +152,13 @@ type Image struct {
 	Log []byte
 }
 
+// ReadFiles loads the image of a file-backed database (path.db, path.log).
+func ReadFiles(path string) *Image {
+	dbb, _ := os.ReadFile(path + ".db")
+	lgb, _ := os.ReadFile(path + ".log")
+	return &Image{DB: dbb, Log: lgb}
+}
+
 func (im *Image) Clone() *Image {
 	return &Image{DB: append([]byte(nil), im.DB...), Log: append([]byte(nil), im.Log...)}
 }
